@@ -90,6 +90,9 @@ func (ip *Interp) registerHarnessAPI() {
 		v := ip.concretize(t, "verifConcrete")
 		return ip.st.Const(t.W, v)
 	})
+	h("verifB2I", func(ip *Interp, fr *frame, args []Value) Value {
+		return ip.st.B2BV(args[0].(*Term), 64)
+	})
 	h("verifIsSymbolic", func(ip *Interp, fr *frame, args []Value) Value {
 		return ip.st.T
 	})
